@@ -292,7 +292,7 @@ func (x *Exec) unop(fr *Frame, st *State, i *ssa.UnOp) Value {
 	case token.MUL:
 		p := x.asPtr(v)
 		x.nilCheck(fr, st, p, i.Pos())
-		if _, isArr := p.elemType(x).Underlying().(*types.Array); isArr {
+		if at, isArr := p.elemType(x).Underlying().(*types.Array); isArr && at.Len() > 32 {
 			x.fail("load of array value at %s", x.pos(i.Pos()))
 		}
 		x.codeAccess(fr, st, p, false, i.Pos())
